@@ -16,7 +16,9 @@ with the multiplication operator, to construct values such as `11 * e(-21)`.
 """
 
 from enum import Enum
-from decimal import Decimal
+from decimal import Decimal, localcontext
+from fractions import Fraction
+from functools import wraps
 from typing import Optional, Any, Union, Tuple
 from pydantic import BaseModel, Field
 from pydantic.dataclasses import dataclass
@@ -162,6 +164,23 @@ So: all `Decimal`, all `pydantic.dataclasses`.
 """
 
 
+def _exact(fn):
+    """Decorator for `Prefixed` arithmetic: run `fn` in a decimal context wide enough
+    that sums, differences, products and re-scalings of its operands are exact,
+    rather than silently rounded to the 28 digits of the default context."""
+
+    @wraps(fn)
+    def wrapper(*args, **kwargs):
+        nums = [a.number for a in args if isinstance(a, Prefixed)]
+        nums += [Decimal(str(a)) for a in args if isinstance(a, (str, int, float, Decimal))]
+        digits = sum(len(n.as_tuple().digits) + abs(n.adjusted()) for n in nums if n.is_finite())
+        with localcontext() as ctx:
+            ctx.prec = max(ctx.prec, digits + 100)  # 100: the 48 decades of prefix range, twice
+            return fn(*args, **kwargs)
+
+    return wrapper
+
+
 class Prefixed(BaseModel):
     """
     # Prefixed
@@ -198,22 +217,31 @@ class Prefixed(BaseModel):
     # def __get_validators__(cls):
     #     yield cls.validate
 
+    def _value(self) -> Fraction:
+        """The exact value denoted, i.e. `number * 10 ** prefix`"""
+        return Fraction(self.number) * Fraction(10) ** self.prefix.value
+
     def __hash__(self):
-        return hash((self.number, self.prefix))
+        # Hash on the value, so that equal numbers written with different prefixes hash equally
+        return hash(self._value())
 
     def __int__(self) -> int:
-        return int(self.number) * 10**self.prefix.value
+        """Convert to int, truncating toward zero"""
+        return int(self._value())
 
     def __float__(self) -> float:
-        """Convert to float"""
-        return float(self.number) * 10**self.prefix.value
+        """Convert to (the nearest) float"""
+        return float(self._value())
 
+    @_exact
     def __neg__(self) -> "Prefixed":
         return Prefixed.new(-self.number, self.prefix)
 
+    @_exact
     def __abs__(self) -> "Prefixed":
         return Prefixed.new(abs(self.number), self.prefix)
 
+    @_exact
     def __mul__(self, other) -> "Prefixed":
         if isinstance(other, Prefixed):
             return (self.number * other.number * self.prefix * other.prefix).scale()
@@ -221,6 +249,7 @@ class Prefixed(BaseModel):
             return NotImplemented
         return Prefixed.new(self.number * Decimal(str(other)), self.prefix).scale()
 
+    @_exact
     def __rmul__(self, other) -> "Prefixed":
         if isinstance(other, Prefixed):
             return (self.number * other.number * self.prefix * other.prefix).scale()
@@ -265,6 +294,7 @@ class Prefixed(BaseModel):
             ** (self.number * (10 ** Decimal(str(self.prefix.value))))
         )
 
+    @_exact
     def __add__(self, other: "Prefixed") -> "Prefixed":
         if not isinstance(other, (str, int, float, Decimal, Prefixed)):
             return NotImplemented
@@ -272,6 +302,7 @@ class Prefixed(BaseModel):
             return _add(lhs=self, rhs=Prefixed.new(other))
         return _add(lhs=self, rhs=other).scale()
 
+    @_exact
     def __radd__(self, other: "Prefixed") -> "Prefixed":
         if not isinstance(other, (str, int, float, Decimal, Prefixed)):
             return NotImplemented
@@ -279,6 +310,7 @@ class Prefixed(BaseModel):
             return _add(lhs=self, rhs=Prefixed.new(other))
         return _add(lhs=self, rhs=other).scale()
 
+    @_exact
     def __sub__(self, other: "Prefixed") -> "Prefixed":
         if not isinstance(other, (str, int, float, Decimal, Prefixed)):
             return NotImplemented
@@ -286,6 +318,7 @@ class Prefixed(BaseModel):
             return _subtract(lhs=self, rhs=Prefixed.new(other))
         return _subtract(lhs=self, rhs=other).scale()
 
+    @_exact
     def __rsub__(self, other: "Prefixed") -> "Prefixed":
         if not isinstance(other, (str, int, float, Decimal, Prefixed)):
             return NotImplemented
@@ -293,6 +326,7 @@ class Prefixed(BaseModel):
             return _subtract(lhs=Prefixed.new(other), rhs=self)
         return _subtract(lhs=other, rhs=self).scale()
 
+    @_exact
     def scale(self, prefix: Prefix = None) -> "Prefixed":
         """Scale to a new `Prefix`"""
         if isinstance(prefix, Prefix):
@@ -309,29 +343,27 @@ class Prefixed(BaseModel):
         return f"{self.number}*{self.prefix.name}"
 
     # Comparison operators that respect class convention
+    def _diff(self, other) -> Fraction:
+        """Exact difference to `other`, rounded to the `EPSILON` comparison tolerance"""
+        return round(self._value() - to_prefixed(other)._value(), EPSILON)
+
     def __lt__(self, other) -> bool:
-        lhs, rhs = _scale_to_smaller(self, other)
-        return round(lhs.number, EPSILON) < round(rhs.number, EPSILON)
+        return self._diff(other) < 0
 
     def __le__(self, other) -> bool:
-        lhs, rhs = _scale_to_smaller(self, other)
-        return round(lhs.number, EPSILON) <= round(rhs.number, EPSILON)
+        return self._diff(other) <= 0
 
     def __eq__(self, other) -> bool:
-        lhs, rhs = _scale_to_smaller(self, other)
-        return round(lhs.number, EPSILON) == round(rhs.number, EPSILON)
+        return self._diff(other) == 0
 
     def __ne__(self, other) -> bool:
-        lhs, rhs = _scale_to_smaller(self, other)
-        return round(lhs.number, EPSILON) != round(rhs.number, EPSILON)
+        return self._diff(other) != 0
 
     def __gt__(self, other) -> bool:
-        lhs, rhs = _scale_to_smaller(self, other)
-        return round(lhs.number, EPSILON) > round(rhs.number, EPSILON)
+        return self._diff(other) > 0
 
     def __ge__(self, other) -> bool:
-        lhs, rhs = _scale_to_smaller(self, other)
-        return round(lhs.number, EPSILON) >= round(rhs.number, EPSILON)
+        return self._diff(other) >= 0
 
 
 # Union of the types which can be converted to `Prefixed`
@@ -375,24 +407,6 @@ def _subtract(lhs: Prefixed, rhs: Prefixed) -> Prefixed:
     smaller = lhs.prefix if lhs.prefix.value < rhs.prefix.value else rhs.prefix
     newnum = lhs.scale(smaller).number - rhs.scale(smaller).number
     return Prefixed.new(newnum, smaller)
-
-
-def _scale_to_smaller(
-    me: Prefixed, other: Union[Prefixed, ToPrefixed]
-) -> Tuple[Prefixed, Prefixed]:
-    """# Scale two `Prefixed` numbers to the smaller of the two prefixes.
-    The `me` argument is always a `Prefixed`, generally due to being the `self` in a `Prefixed` mthod.
-    The `other` argument is commonly another compatible/ convertible type,
-    and is converted before scaling."""
-
-    other = to_prefixed(other)
-    smaller = (
-        me.prefix
-        if me.number * Decimal(10**me.prefix.value)
-        < other.number * Decimal(10**other.prefix.value)
-        else other.prefix
-    )
-    return me.scale(smaller), other.scale(smaller)
 
 
 # Common prefixes as single-character identifiers, and exposed in the module namespace.
